@@ -171,7 +171,7 @@ def transformations(name, quick):
             gens += [ident[::-1]] + [ident[i:] + ident[:i] for i in range(1, n)]
             perms = [tuple(g) for g in gens]
         out += [{"kind": "mperm", "q": q, "perm": list(p)} for p in perms if list(p) != list(range(n))]
-    out += [{"kind": "wscale", "factor": f} for f in (0.01, 7.5, 1e3)]
+    out += [{"kind": "wscale", "factor": f} for f in (0.01, 7.5, 1e3, 1e-7, 1e-12, 2.0 ** -40, 1e9)]
     ident = list(range(ncol))
     if ncol <= 4:
         cperms = [list(p) for p in itertools.permutations(ident)]
@@ -203,7 +203,7 @@ def explore(ctx):
                 "documented interpolator for the volume-block clause; "
                 "re-presentations: all orders of q-points 2..n with weights, mode orders within each q-point (all n! in thorough, "
                 "generators = adjacent transpositions, reversal, rotations in quick; at Gamma only the optical modes move), weight "
-                "scale x0.01/x7.5/x1000, static column orders (all for 3 columns; transpositions+rotations+reversal for 9/13), upper "
+                "scale factors from 1e-12 to 1e9, static column orders (all for 3 columns; transpositions+rotations+reversal for 9/13), upper "
                 "case, static row orders (all 120 thorough), phonon volume-block orders (all 120 thorough: same numbers or an error); "
                 "each re-presented run compared with the base run on every modulus (T,V and T,P) and on K, G, v_p, V(T,P); "
                 "non-trivial = every non-identity transformation")
